@@ -36,6 +36,13 @@ remarks={
  'r5_C16_m1':"missed at first (needs SyncOnFlush and a writer that flushes itself next to another Flush); SyncOnFlush runs and a fixed-pair run with two preemptions added",
  'r5_C16_m2':"missed at first (no state with several index files and pending work; GC always ran with its unused-file scan, which skips the record-level pass); prefix 9 and scan-free choice added",
  'r5_C17_m2':"missed at first (no failing Close); H17 scenario 3 added",
+ 'r6_C02_m1':"missed at first (nothing reopened by recovery scan what a snapshot-reopened session had written after an index GC); H02Reopen fourth open added",
+ 'r6_C03_m2':"missed at first (no Flush after a primary GC cycle inside a crash scenario); H04GC crash copy after the final Flush added to C03",
+ 'r6_C05_m1':"inconclusive at first (wall budget under load), then missed: no Put || Put || Flush run; added",
+ 'r6_C08_m2':"missed by C08 at first (the removed key itself was not looked up after the list moved to disk); K-RL removed-key clause added",
+ 'r6_C13_m1':"missed at first (K-PGC always flushed between cycles); idle-store variant with 'old location recorded at most once' added",
+ 'r6_C13_m2':"missed at first (legacy freelist entries not applied during the upgrade leave an unreferenced live record); H10Upgrade with the no-orphan clause added to C13 and C10",
+ 'r6_C15_m1':"missed at first (multihash headers were always 2 bytes); 128-byte identity digests added (the engine's multihash.Sum model gained varint lengths)",
  'C12_m2':"discarded (section 12)",
  'C04_m2':"superseded by fix a8f3406 (section 12)",
 }
